@@ -7,6 +7,7 @@ open Lean TDV.Alias TDV.Drv
 def opOf (j : Json) : Except String Op := do
   match (← getStr j "op") with
   | "step" => return .step (← getNat j "v")
+  | "rebind" => return .rebind (← getNat j "v")
   | "get" => return .get
   | "load" => return .load (← getNat j "h")
   | "new" => return .userNew (← getNat j "v")
@@ -20,7 +21,7 @@ def obs (s : St) : Json :=
     ("user", ofNatList (s.user.map fun e => s.heap e.1)),
     ("intact", Json.bool (immutableB s))]
 
-/-- request: {"m":"alias","copyIn":b,"copyOut":b,"inPlace":b,"v0":n,"ops":[{"op":"step","v":n}|{"op":"get"}|
+/-- request: {"m":"alias","copyIn":b,"copyOut":b,"inPlace":b,"v0":n,"ops":[{"op":"step","v":n}|{"op":"rebind","v":n}|{"op":"get"}|
       {"op":"load","h":i}|{"op":"new","v":n}, …]}
     answer: {"safe":b,"steps":[{"content":n,"alias":[b,..],"user":[n,..],"intact":b}, …]} -/
 def handle (j : Json) : Except String Json := do
